@@ -32,9 +32,43 @@ PROPS = {
              "CreateIPFIXMsg output == refipfix encoding byte for byte. Non-trivial = contains a reset followed by adds, or >= 2 add paths; "
              "distinct by hash of the operations with their values.",
              COMMON_ASSUME, "runtime monitor: lockstep differential of the three add paths + fresh replay + reference length/byte model after every op"),
+    "C02": P(False, (8, 16), 16, (900, 3600), 4000, 2000, "exploration",
+             "one evaluation = one message captured at a raw TCP or UDP peer socket (IPv4 and IPv6 loopback) from a real exporting process; "
+             "it must parse strictly with refipfix (version 10, header length == bytes captured, exactly one set covering the rest, set id 2 / "
+             "template id), template records must match the elements sent (id, enterprise bit+number, length), data sets must split under the "
+             "template previously parsed FROM THE WIRE into exactly the values handed to SendSet, and the whole message must equal refipfix's own "
+             "encoding byte for byte. Templates of 1..40 elements from the IANA/reverse/Antrea registries plus a user-registered enterprise; "
+             "1..fit records. Non-trivial = data message with >= 1 record or template with >= 1 enterprise field; distinct by message body.",
+             COMMON_ASSUME + ["UDP sends that the kernel refuses for datagram size are outside the library's control and only counted"],
+             "runtime monitor: independent RFC 7011 decoder/encoder over bytes captured at a raw peer socket"),
+    "C08": P(False, (8, 16), 16, (900, 3600), 300, 100, "exploration",
+             "one evaluation = one session of a real exporting process against a raw TCP (3/4) or UDP (1/4) peer, IPv4 and IPv6: a random "
+             "history of 20..80 successful template/data SendSet calls with 1..400 records; one third of the sessions start 1..600 records "
+             "below 2^32 (VerifSetSeqNumber hook) and cross the wrap. Every captured message: seq == running data-record count incl. this "
+             "message mod 2^32 (templates do not advance it), configured observation domain, export time inside the wall-clock-second "
+             "interval sampled around the call, bytes reported == bytes captured == one message; nothing else at the peer at the end. "
+             "Non-trivial = a template between data messages, or the wrap crossed; distinct by hash of the (kind, record count) list.",
+             COMMON_ASSUME + ["failed sends are outside C08's statement and are not generated here"],
+             "runtime monitor: running-count model over headers parsed from bytes captured at a raw peer"),
+    "C09": P(False, (8, 16), 16, (900, 3600), 300, 100, "exploration",
+             "one evaluation = one history of 12..42 sends on a real exporting process against a raw peer (TCP 4/5, UDP 1/5), mixing valid sends "
+             "with unknown template ids, wrong field counts (one record of several), an undefined set type, messages of every length "
+             "65519..65540, and ill-typed values (IPv6 in ipv4Address, wrong-length IPs, MAC shorter/longer than 6, fixed octetArray of the "
+             "wrong length) in one field of one record. Must-refuse sends must return an error and 0 bytes; after each one a marker message is "
+             "sent and must be the next thing the peer sees; accepted messages must equal refipfix's encoding of the supplied values. "
+             "Non-trivial = a refused send followed by an accepted one; distinct by hash of the send classes.",
+             COMMON_ASSUME + ["an IPv4 address supplied for an ipv6Address element is not judged (net.IP treats it as its ::ffff: form)",
+                              "a data set whose template send itself failed is a gray zone and is not generated"],
+             "runtime monitor: expected-stream model (concatenation of accepted messages) over bytes captured at a raw peer, marker messages"),
 }
 
 LEVEL_TEXT = {
+    "C08": "Held on every session explored, including sessions that cross the 2^32 wrap. Exploration over random histories is the right "
+           "level: the counter is a function of the send history only.",
+    "C09": "Held on every history explored: nothing but the accepted messages ever reached the peer, and every refusal was reported as an "
+           "error. Byte-level observation at the socket is what settles 'writes nothing to the connection'.",
+    "C02": "Held on every message captured. The oracle shares no code with the library, so a symmetric encode/decode error (invisible to "
+           "C01) is visible here. Exploration over PRNG templates/values is the right level for an input-quantified wire-format property.",
     "C16": "Held on every operation sequence explored (random, well-formed order), with the invariants evaluated after every single "
            "operation rather than at the end. Exploration is the right level: the builders are deterministic, sequential code whose state "
            "space is driven entirely by the operation sequence.",
